@@ -86,7 +86,8 @@ QTrunc(x) == <<x[1] \div x[2], 1>>                 \* x >= 0 : what int(float) d
 
 -----------------------------------------------------------------------------
 (* units: factor to the base unit of the dimension *)
-UnitF == [m |-> <<1, 1>>, cm |-> <<1, 100>>, km |-> <<1000, 1>>, s |-> <<1, 1>>, ms |-> <<1, 1000>>]
+UnitF == [m |-> <<1, 1>>, cm |-> <<1, 100>>, mm |-> <<1, 1000>>, km |-> <<1000, 1>>, s |-> <<1, 1>>, ms |-> <<1, 1000>>]
+UnitDim == [m |-> "L", cm |-> "L", mm |-> "L", km |-> "L", s |-> "T", ms |-> "T"]
 AltSeq(nu) == CASE nu = "m" -> <<"cm", "km">> [] nu = "km" -> <<"m">> [] nu = "s" -> <<"ms">> [] OTHER -> <<>>
 HasAlt(nu)  == Len(AltSeq(nu)) >= 1
 HasAlt2(nu) == Len(AltSeq(nu)) >= 2
@@ -94,7 +95,7 @@ Alt1(nu) == IF HasAlt(nu) THEN AltSeq(nu)[1] ELSE nu
 Alt2(nu) == AltSeq(nu)[2]
 
 \* the value of a numeric literal in NODE units (its base; the ulp offset k rides along)
-Base(l, nu)  == IF l.u = "" \/ nu = "" THEN l.n ELSE QDiv(QMul(l.n, UnitF[l.u]), UnitF[nu])
+Base(l, nu)  == IF l.u = "" \/ nu = "" \/ l.u = nu THEN l.n ELSE QDiv(QMul(l.n, UnitF[l.u]), UnitF[nu])
 \* a literal is "foreign" when it is written in another unit than the node's: a conversion happens
 Foreign(l, nu) == l.u # "" /\ l.u # nu
 \* b node-units written in unit u
@@ -102,9 +103,16 @@ InUnit(b, u, nu) == IF u = "" \/ nu = "" THEN b ELSE QDiv(QMul(b, UnitF[nu]), Un
 Num(b, u, k, nu) == [t |-> "num", n |-> InUnit(b, u, nu), u |-> u, k |-> k]
 
 Far == 1000
-\* signed distance on the ulp scale: same base -> difference of k, else +-Far
-\* (the bases of the pools differ by far more than 1e-4 relative)
-Dist(bx, kx, by, ky) == IF QEq(bx, by) THEN kx - ky ELSE IF QLt(bx, by) THEN -Far ELSE Far
+QSub(x, y) == Q(x[1] * y[2] - y[1] * x[2], x[2] * y[2])
+\* different bases closer than 1e-4 relative (never the case inside the generated pools; observed values of
+\* recorded environments can be): too close for this scale to tell equal from different
+NearBases(x, y) == /\ x[1] # 0 /\ y[1] # 0            \* zero is near nothing but itself
+                   /\ LET d == QSub(x, y) IN Abs(d[1]) * 10000 * y[2] < Abs(y[1]) * d[2]
+\* signed distance on the ulp scale: same base -> difference of k; different bases -> +-Far, or +-10
+\* (inside the unspecified band of the precision) when they are closer than 1e-4 relative
+Dist(bx, kx, by, ky) == IF QEq(bx, by) THEN kx - ky
+                        ELSE LET sg == IF QLt(bx, by) THEN -1 ELSE 1
+                             IN IF NearBases(bx, by) THEN sg * 10 ELSE sg * Far
 DistL(x, y, nu) == Dist(Base(x, nu), x.k, Base(y, nu), y.k)
 
 -----------------------------------------------------------------------------
@@ -151,17 +159,16 @@ ICond(nu, v, c) ==
 
 \* final value equals one of the options, compared in the node's unit; the per-line options and
 \* all !options lists of a node "combine into a single array of options"
+IOpt(nu, v, o) == IF o.t = "str" THEN B3(v.s = o.s) ELSE IEq(DistL(v, o, nu))
 IOptsAll(nu, v, cs) ==
   LET os == OptVals(cs) IN
-  IF os = {} THEN "T"
-  ELSE OrAll3({ IF o.t = "str" THEN B3(v.s = o.s) ELSE IEq(DistL(v, o, nu)) : o \in os })
+  IF os = {} THEN "T" ELSE OrAll3({IOpt(nu, v, o) : o \in os})
 
 \* the whole value matches the pattern; a match of a proper prefix only is left open unless
 \* the pattern is anchored at its end (the documentation says "regular expression" and shows
 \* a pattern that "can contain only letters"; the library's own test rejects '7-up' for [a-zA-Z]+)
-IFmt(v, c) ==
-  LET cl == FmtTable[c.pat].cls[v.s]
-  IN IF cl = "full" THEN "T" ELSE IF cl = "prefix" /\ ~FmtTable[c.pat].end THEN "U" ELSE "F"
+IFmtCls(cl, endAnchored) == IF cl = "full" THEN "T" ELSE IF cl = "prefix" /\ ~endAnchored THEN "U" ELSE "F"
+IFmt(v, c) == IFmtCls(FmtTable[c.pat].cls[v.s], FmtTable[c.pat].end)
 
 \* a !condition or !format line holds of v
 IHolds(nu, v, c) == CASE c.c = "cond" -> ICond(nu, v, c) [] c.c = "fmt" -> IFmt(v, c)
